@@ -433,7 +433,8 @@ func c11Content(sp *c11Spec, i, d int) string {
 	case "child":
 		return fmt.Sprintf(`{%% extends "%s" %%}{%% block k %%}<C:%s@%d>%s{{ block.Super }}</C>{%% endblock %%}`, f.PName, f.Path, d, refs.String())
 	}
-	return fmt.Sprintf("<F:%s@%d|pv={{ pv }}|wv={{ wv }}|w2={{ wv2 }}>%s</F>", f.Path, d, refs.String())
+	// sv is a private variable (set) of whoever includes this file; the file then sets its own
+	return fmt.Sprintf("<F:%s@%d|pv={{ pv }}|wv={{ wv }}|w2={{ wv2 }}|sv={{ sv }}>{%% set sv = \"S%d\" %%}%s</F>", f.Path, d, i, refs.String())
 }
 
 func c11DiskPath(sp *c11Spec, p string) string {
@@ -445,7 +446,7 @@ func c11DiskPath(sp *c11Spec, p string) string {
 
 // ---- reference interpreter -----------------------------------------------------------
 
-type c11Env struct{ pv, wv, wv2 string }
+type c11Env struct{ pv, wv, wv2, sv string }
 
 type c11Fault struct {
 	Disk  int    `json:"disk"`
@@ -607,7 +608,8 @@ func (r *c11Ref2) exec(n *c11Node, name string, env c11Env, b *strings.Builder) 
 	case "macros":
 		return true // a macro file renders nothing by itself
 	}
-	fmt.Fprintf(b, "<F:%s@%d|pv=%s|wv=%s|w2=%s>", f.Path, n.disk, env.pv, env.wv, env.wv2)
+	fmt.Fprintf(b, "<F:%s@%d|pv=%s|wv=%s|w2=%s|sv=%s>", f.Path, n.disk, env.pv, env.wv, env.wv2, env.sv)
+	env.sv = fmt.Sprintf("S%d", n.file)
 	if !r.execRefs(n, f, name, env, b) {
 		return false
 	}
